@@ -7,6 +7,7 @@
 (*   del    id cause pending  ChannelMap.delete(id) while handling CLOSE ("close") or   *)
 (*                          CHANNEL_OPEN_FAILURE ("failure"; pending = a local open of  *)
 (*                          that id was waiting for its answer)                          *)
+(*   timeout id             open_channel(id) raised "Timeout opening channel"          *)
 (*   drop   who             thread who gave up the id it had allocated (open rejected) *)
 (* live0 / final: ids registered before the first and after the last event.          *)
 (* The design spec's variables are updated with its own operators and its invariants  *)
@@ -22,9 +23,9 @@ SeqSet(q) == {q[i] : i \in 1..Len(q)}
 TInit == /\ tid \in 1..Len(Batch) /\ l = 1 /\ bad = {}
          /\ counter = Batch[tid].counter0
          /\ map = SeqSet(Batch[tid].live0) /\ open = [i \in SeqSet(Batch[tid].live0) |-> 1]
-         /\ pend = <<>> /\ inwin = 0
+         /\ pend = <<>> /\ inwin = 0 /\ await = {}
 TNext ==
-  /\ l <= Len_ /\ l' = l + 1 /\ tid' = tid /\ inwin' = inwin
+  /\ l <= Len_ /\ l' = l + 1 /\ tid' = tid /\ inwin' = inwin /\ await' = await
   /\ LET e == T.events[l] IN
      CASE e.op = "alloc" ->
             /\ AllocBy(e.who, e.id) /\ UNCHANGED <<open, map>>
@@ -40,11 +41,15 @@ TNext ==
        [] e.op = "del" ->
             \* cause "close": CLOSE handled for that channel (it is closed); "failure": CHANNEL_OPEN_FAILURE,
             \* which closes a channel only if its local open was still waiting for the answer (e.pending)
-            /\ (IF e.id \notin DOMAIN open THEN UNCHANGED <<open, map>>
+            /\ (IF e.id \notin DOMAIN open THEN map' = map \ {e.id} /\ open' = open
                 ELSE IF e.cause = "failure" /\ ~e.pending THEN map' = map \ {e.id} /\ open' = open
                 ELSE Unregister(e.id))
             /\ UNCHANGED <<counter, pend>>
             /\ bad' = Fails(MapAgrees', "C_live_channel_unregistered")
+       [] e.op = "timeout" ->          \* open_channel gave up waiting for the answer: the application has no channel
+            /\ open' = IF e.id \in DOMAIN open THEN Dec(open, e.id) ELSE open
+            /\ UNCHANGED <<counter, map, pend>>
+            /\ bad' = {}
        [] e.op = "drop" ->
             /\ pend' = IF e.who \in DOMAIN pend THEN Without(pend, e.who) ELSE pend
             /\ UNCHANGED <<counter, open, map>>
